@@ -498,7 +498,32 @@ def r6(R):
 
 
 # ------------------------------------------------------------------ C17.R7
-def _is_hdrlen(e):
+def _txn_hdr_fields(fnode):
+    """Names bound by `tid, tl, status, ul, dl, el = unpack(<fmt>, h)` in
+    this function -> ({length names}, [(ul, dl, el) name triples]); a name
+    assigned u64(<length name>) is a length name too."""
+    tl, triples = set(), []
+    for a in walk_local(fnode):
+        if isinstance(a, ast.Assign) and isinstance(
+                a.targets[0], ast.Tuple) and len(a.targets[0].elts) == 6 \
+                and isinstance(a.value, ast.Call) and dotted(a.value.func) \
+                and dotted(a.value.func)[-1] == 'unpack' and all(
+                    isinstance(x, ast.Name) for x in a.targets[0].elts):
+            e = a.targets[0].elts
+            tl.add(e[1].id)
+            triples.append((e[3].id, e[4].id, e[5].id))
+    for a in walk_local(fnode):
+        if isinstance(a, ast.Assign) and isinstance(
+                a.targets[0], ast.Name) and isinstance(a.value, ast.Call) \
+                and len(a.value.args) == 1 and isinstance(
+                    a.value.args[0], ast.Name) and \
+                a.value.args[0].id in tl and dotted(a.value.func) and \
+                dotted(a.value.func)[-1].lower() == 'u64':
+            tl.add(a.targets[0].id)
+    return tl, triples
+
+
+def _is_hdrlen(e, triples=()):
     """23/TRANS_HDR_LEN + ul + dl + el   or   X.headerlen()"""
     if isinstance(e, ast.Call) and isinstance(e.func, ast.Attribute) and \
             e.func.attr == 'headerlen':
@@ -506,13 +531,15 @@ def _is_hdrlen(e):
     if isinstance(e, ast.BinOp) and isinstance(e.op, ast.Add):
         names = {x.id for x in ast.walk(e) if isinstance(x, ast.Name)} | \
             {x.attr for x in ast.walk(e) if isinstance(x, ast.Attribute)}
-        if {'ul', 'dl', 'el'} <= names or {'ulen', 'dlen', 'elen'} <= names:
+        if {'ulen', 'dlen', 'elen'} <= names:
+            return True
+        if any(set(t) <= names for t in triples):
             return True
     return False
 
 
-def _is_tlen(e):
-    return (isinstance(e, ast.Name) and e.id in ('tl', 'tlen', 'stl')) or (
+def _is_tlen(e, tl=()):
+    return (isinstance(e, ast.Name) and e.id in tl) or (
         isinstance(e, ast.Attribute) and e.attr == 'tlen')
 
 
@@ -548,17 +575,17 @@ def r7(R):
     be the refusing one."""
     n = 0
     for f in R.prog.all_functions():
+        tlnames, triples = _txn_hdr_fields(f.node)
         hdr_locals = set()
         for a in walk_local(f.node):
             if isinstance(a, ast.Assign) and len(a.targets) == 1 and \
-                    isinstance(a.targets[0], ast.Name) and _is_hdrlen(a.value):
+                    isinstance(a.targets[0], ast.Name) and _is_hdrlen(
+                        a.value, triples):
                 hdr_locals.add(a.targets[0].id)
 
         def hdr(e):
-            return _is_hdrlen(e) or (isinstance(e, ast.Name) and
-                                     e.id in hdr_locals) or (
-                isinstance(e, ast.BinOp) and isinstance(e.op, ast.Add) and
-                False)
+            return _is_hdrlen(e, triples) or (isinstance(e, ast.Name) and
+                                              e.id in hdr_locals)
 
         for st in walk_local(f.node):
             if not isinstance(st, (ast.If, ast.While)):
@@ -571,8 +598,15 @@ def r7(R):
                     return at_equal(e.operand, not flip)
                 if isinstance(e, ast.Compare) and len(e.ops) == 1:
                     l, r, op = e.left, e.comparators[0], e.ops[0]
-                    if (_is_tlen(l) and hdr(r)) or (hdr(l) and _is_tlen(r)):
-                        v = isinstance(op, (ast.LtE, ast.GtE, ast.Eq))
+                    # an ordering test of a plain value against the header
+                    # length: the value is the transaction length
+                    simple = (ast.Name, ast.Attribute)
+                    if isinstance(op, (ast.Lt, ast.LtE, ast.Gt, ast.GtE)) \
+                            and ((isinstance(l, simple) and hdr(r) and
+                                  not hdr(l)) or
+                                 (hdr(l) and isinstance(r, simple) and
+                                  not hdr(r))):
+                        v = isinstance(op, (ast.LtE, ast.GtE))
                         return (v != flip), e
                 return None
 
@@ -611,6 +645,16 @@ def r8(R):
     f = R.prog.func('ZODB.blob.copyTransactionsFromTo')
     g, b, F = R.cfg(f, None, max_depth=0)
     seen = [0]
+    # the local that holds the source's blob file name
+    BF = None
+    for a in walk_local(f.node):
+        if isinstance(a, ast.Assign) and isinstance(
+                a.targets[0], ast.Name) and isinstance(a.value, ast.Call) \
+                and dotted(a.value.func) and \
+                dotted(a.value.func)[-1] == 'loadBlob':
+            BF = a.targets[0].id
+    R.require(BF is not None, 'copyTransactionsFromTo no longer asks the '
+              'source for the blob file (loadBlob)')
 
     def edge(node, st, lab, tgt):
         notblob, nofile, fname = st
@@ -646,7 +690,7 @@ def r8(R):
                     notblob = not truth
                 if isinstance(e, ast.Compare) and len(e.ops) == 1 and \
                         isinstance(e.left, ast.Name) and \
-                        e.left.id == 'blobfilename' and isinstance(
+                        e.left.id == BF and isinstance(
                             e.comparators[0], ast.Constant) and \
                         e.comparators[0].value is None:
                     isnone = isinstance(e.ops[0], ast.Is) == truth
@@ -655,7 +699,7 @@ def r8(R):
                     if fname == 'none' and not isnone:
                         return PRUNE
         if node.kind == 'stmt' and isinstance(a, ast.Assign) and any(
-                isinstance(t, ast.Name) and t.id == 'blobfilename'
+                isinstance(t, ast.Name) and t.id == BF
                 for t in a.targets):
             if lab in ('e', 'eb'):
                 if isinstance(a.value, ast.Call) and dotted(
@@ -690,3 +734,54 @@ def r8(R):
     R.require(seen[0] or vs, 'no restore() call in copyTransactionsFromTo')
     for v in vs:
         R.violation(v.node, v.message, g, v.path)
+
+
+# ------------------------------------------------------------------ C17.R9
+def _mentions_tloc(e):
+    for x in ast.walk(e):
+        if isinstance(x, ast.Compare) and len(x.ops) == 1 and isinstance(
+                x.ops[0], ast.NotEq):
+            for side in (x.left, x.comparators[0]):
+                if (isinstance(side, ast.Attribute) and side.attr == 'tloc') \
+                        or (isinstance(side, ast.Name) and side.id == 'tloc'):
+                    return True
+    return False
+
+
+@rule('C17.R9', 'every reader of data records refuses a record that does not '
+      'belong to the transaction it is read in (wrong transaction position '
+      '/ longer than the transaction): it raises or rejects, it never just '
+      'stops reading', min_instances=5)
+def r9(R):
+    """Sibling agreement (F29) between read_index, _check_sanity, the
+    record iterator, the packer's checkData and fstest.  Ending the loop
+    instead (break / continue / fall through) hands the caller a transaction
+    without its remaining records, which a copy or the recovery tool then
+    commits with normal status."""
+    n = 0
+    for f in R.prog.all_functions():
+        for st in walk_local(f.node):
+            if not (isinstance(st, ast.If) and _mentions_tloc(st.test)):
+                continue
+            n += 1
+            R.instance('%s: if %s' % (f.short, ast.unparse(st.test)[:70]))
+            last = st.body[-1]
+            refuses = isinstance(last, ast.Raise) or (
+                isinstance(last, ast.Return) and isinstance(
+                    last.value, ast.Constant) and not last.value.value) or (
+                isinstance(last, ast.Expr) and isinstance(
+                    last.value, ast.Call) and dotted(last.value.func) and
+                dotted(last.value.func)[-1] in ('panic', 'fail', 'error'))
+            if not refuses:
+                R.violation(
+                    (f.module.relpath, f.qualname,
+                     ' '.join(ast.unparse(st.test).split()), st.lineno),
+                    '%s does not refuse a data record that does not fit its '
+                    'transaction (the branch ends with `%s`): the caller '
+                    'sees a transaction that simply has fewer records, and '
+                    'a copy / the recovery tool commits it'
+                    % (f.short, ast.unparse(last)[:40]),
+                    key='record does not fit its transaction')
+    R.require(n >= 5, 'expected the record checks of read_index, '
+              '_check_sanity, the record iterator, checkData and fstest; '
+              'found %d' % n)
